@@ -948,7 +948,31 @@ fn c16() -> PropSpec {
 // ---- C17 -------------------------------------------------------------------------------------
 
 fn check_c17(l: &Ledger, e: &[(String, String)], s: &PropSpec) -> Vec<Violation> {
-    crate::oracle_twin::check_c17(l, e, s)
+    let mut out = crate::oracle_twin::check_c17(l, e, s);
+    // The twin comparison cannot look at the protection-violated markers themselves (its twin never delivered the
+    // buffers that set them). The documented exception lets a rejected buffer SET the marker of a request; it never
+    // lets one REMOVE it: after a rejected buffer every request that was marked before and is still outstanding is
+    // still marked (H2 snapshot).
+    for w in l.steps.windows(2) {
+        let (prev, st) = (&w[0], &w[1]);
+        if prev.gen != st.gen || !st.events.is_empty() {
+            continue;
+        }
+        if let (Call::Recv { .. }, CallResult::Err(_)) = (&st.call, &st.result) {
+            for id in &prev.snap.violated {
+                let still_outstanding = st.snap.outstanding.iter().any(|(i, _)| i == id);
+                if still_outstanding && !st.snap.violated.contains(id) {
+                    out.push(Violation {
+                        prop: "C17",
+                        key: "C17/rejected-buffer-cleared-the-protection-violated-marker".into(),
+                        step: st.idx,
+                        detail: format!("step {}: the buffer was rejected ({:?}) yet the mark \"a response of this request failed authentication\" of a still outstanding request is gone", st.idx, st.result),
+                    });
+                }
+            }
+        }
+    }
+    out
 }
 
 fn sig_c17(l: &Ledger) -> Vec<u64> {
@@ -963,6 +987,7 @@ fn c17() -> PropSpec {
     p.p_splice = 30;
     p.p_srv_integ = 250;
     p.p_srv_fp = 150;
+    p.p_srv_hostile = 60;
     p.p_srv_dup = 100;
     p.p_dup = 150;
     p.p_reliable = 200;
